@@ -657,6 +657,15 @@ def check_target(ctx, T):
                     continue
                 sub = [x for rw in info[callee]["rows"] for x in rw["inv"]]
                 fresh = len(sub) == 1 and sub[0][0] in limited and sub[0][1] == [("id", cname)]
+                # A restart with a fresh budget bounds nesting by 2 x limit, not by the limit. It is tolerated (as an observation) only in the legacy
+                # grammar copy of scim_proto, whose filter parser no crate of the server calls; the grammar the server parses requests with must hand on
+                # the budget it was given. (tightened after seeded change C42: kanidm_proto's complex alternative was switched to parse_complex())
+                if fresh and tag != "scim_proto":
+                    ctx.violation("K11-depth-limiter", gfn, inst,
+                                  f"rule {n}: the {what} alternative recurses through the public entry `{callee}()`, which starts a FRESH budget of {cname}: the levels "
+                                  f"nested outside the {'[..]' if what == 'complex' else what} no longer count, so a filter can nest about twice the documented limit "
+                                  f"({cname}) — hand on the current budget `{p}` through the depth-limited rule instead")
+                    continue
                 ctx.check(fresh, "K11-depth-limiter", gfn, inst,
                           f"{what} alternative recurses through entry {callee}() = {sub[0][0] if sub else '?'}({cname}): limiter applies, with a fresh budget",
                           f"rule {n}: the {what} alternative recurses through `{callee}({argtxt})`, which is neither a depth-limited rule called with the current budget nor a "
